@@ -299,6 +299,9 @@ fn ops_for(len: u8, cfg: &Cfg, out: &mut Vec<Tok>) {
             out.push(Tok::Op(Op::Clear));
         }
         Alphabet::Reduced => {
+            if room >= 2 {
+                out.push(Tok::Op(Op::Append(2, if nk > 1 { 1 } else { 0 })));
+            }
             if room >= 1 {
                 for k in 0..nk {
                     out.push(Tok::Op(Op::PushBack(k)));
